@@ -197,8 +197,11 @@ def expressions():
 
 EXPRS = [e for e in expressions() if e.py is not None and e.kind != "hy-only"]
 # expressions used inside format specs: integers (usable as width/precision) and strings
-NEST_INT = [Expr("w"), Expr("p"), Expr("(+ w p)", "(w + p)", "operator"), Expr("12", kind="number"), Expr("(g w)", "g(w)", "call")]
-NEST_STR = [Expr('">"', kind="string"), Expr("fill", kind="name"), Expr('(+ "" fill)', '("" + fill)', "operator")]
+NEST_INT = [Expr("w"), Expr("p"), Expr("(+ w p)", "(w + p)", "operator"), Expr("12", kind="number"), Expr("(g w)", "g(w)", "call"),
+            # statement-producing forms inside a spec: their statements run after those of the field's own value, as in Python
+            Expr("(do (g 1) w)", "(g(1), w)[1]", "do"), Expr("(do (setv z2 (g p)) z2)", "(z2 := g(p))", "do")]
+NEST_STR = [Expr('">"', kind="string"), Expr("fill", kind="name"), Expr('(+ "" fill)', '("" + fill)', "operator"),
+            Expr("(do (g 2) fill)", "(g(2), fill)[1]", "do")]
 
 BLANKS = ["", " ", "  ", "\t", "\n", " \t ", "\n  "]
 
@@ -532,6 +535,22 @@ def systematic_fields(full):
                 k += 1
                 spec = make_spec(kind, k, spec_mode(e, conv))
                 yield Field(e, sb=sb, sm=sm, dbg=sa if dbg else None, conv=conv, sc=sc if conv else "", spec=spec)
+
+
+def statement_order_fields():
+    """a field whose value AND whose nested spec fields are statement-producing forms (do with several forms, setx): the statements of
+    the value run first, then those of the spec fields from left to right, as the Python f-string evaluates them"""
+    stm_vals = [e for e in EXPRS if e.kind in ("do", "walrus")] + [Expr("(do (setv z3 (f w)) z3)", "(z3 := f(w))", "do", v=True)]
+    stm_int = [e for e in NEST_INT if e.kind == "do"]
+    stm_str = [e for e in NEST_STR if e.kind == "do"]
+    for e in stm_vals:
+        for conv in (None, "r"):
+            for n1 in stm_int:
+                yield Field(e, conv=conv, sc=" " if conv else "", spec=[Chunk(">"), Field(n1)])
+                for n2 in stm_str:
+                    yield Field(e, conv=conv, sc=" " if conv else "", spec=[Field(n2), Chunk("<"), Field(n1)])
+            if conv is None and e.v:
+                yield Field(e, spec=[Field(stm_int[0]), Chunk("."), Field(stm_int[-1])])
 
 
 def contexts(f, i):
